@@ -9,3 +9,17 @@ package simplefixgo
 //@ global[C10,C19] ErrInvalidSequence = errconst(3)
 //@ global[C04,C19] ErrConnClosed = errconst(4)
 //@ global[C19] ErrHandleNotFound = errconst(5)
+
+// Messages handed to a handler are builder objects of generated code (assumed
+// contracts; the ghost attributes are declared with package messages).
+//@ ghostfield mBytes string
+//@ ghostfield mBytesErr bool
+//@ interface SendingMessage assumed
+//@   method HeaderBuilder() (res messages.HeaderBuilder):
+//@     pure
+//@     ensures res == hdr(self) && res != nil
+//@   method MsgType() (res string):
+//@     pure
+//@     ensures res == mType(self)
+//@   method ToBytes() (res []byte, err error):
+//@     ensures (err == nil) == !mBytesErr(self) && imp(err == nil, string(res) == mBytes(self))
